@@ -422,6 +422,14 @@ for _pid in sorted({p for _, ps in _GEN.values() for p in ps}):
         )
 
 # ---------------------------------------------------------------------------------------------------------------------------
+# R-WIDTHFLOW: bit-width inference over the semantic functions
+from .rules import widthflow as R_wf
+
+for _pid in ("C06", "C12", "C17"):
+    PROPS[_pid]["rules"].append((R_wf.r_widthflow(("amoco/arch/",), "arch"), Q))
+    PROPS[_pid]["explanation"] += " (R-WIDTHFLOW) bit-width inference over the ~1570 semantic functions: where two certain widths must agree (tst branches, operands of + - & | ^, fmap[loc] = v) they do, also along each reaching definition of a local."
+
+# ---------------------------------------------------------------------------------------------------------------------------
 # R-X86SIB: x86/x64 sibling functions recorded in ref/x86_siblings.json
 for _pid in ("C05", "C06", "C07", "C17"):
     PROPS[_pid]["rules"].append((R_c06.r_x86sibling(_pid), Q))
